@@ -1144,3 +1144,37 @@ def replay_component_keywords(index, ob, seed, saved=None):
     if cells != ["x^2", "n >= 5", "a_1", "4^"]:
         return _r(True, input={"body": "RTFBody(text_convert=False)", "cells": ["x^2", "n >= 5", "a_1", "4^"]}, observed=cells, expected="the cells verbatim")
     return _r(False)
+
+
+def replay_failing_encode_exports(index, ob, seed, saved=None):
+    """An export of a document whose encoding genuinely fails (non-contiguous group_by keys: ValueError inside the pipeline): rtf_encode and
+    write_rtf must raise, a pre-existing target stays byte-for-byte unchanged and no new target appears."""
+    import os, tempfile, shutil
+    import polars as pl
+    rtf = index.real_module("rtflite")
+    tmp = tempfile.mkdtemp(prefix="verif_c18enc_")
+    try:
+        doc = rtf.RTFDocument(df=pl.DataFrame({"g": ["A", "B", "A"], "v": ["1", "2", "3"]}), rtf_body=rtf.RTFBody(group_by=["g"]))
+        try:
+            s = doc.rtf_encode()
+            return _r(True, input={"document": "group_by keys A, B, A (not contiguous)"}, observed=f"rtf_encode returned a string of length {len(s)}", expected="ValueError")
+        except ValueError:
+            pass
+        for pre in (True, False):
+            target = os.path.join(tmp, f"t{int(pre)}", "out.rtf")
+            if pre:
+                os.makedirs(os.path.dirname(target))
+                with open(target, "wb") as f:
+                    f.write(b"ORIGINAL")
+            raised = None
+            try:
+                doc.write_rtf(target)
+            except Exception as e:
+                raised = type(e).__name__
+            now = open(target, "rb").read() if os.path.exists(target) else None
+            if raised is None or now != (b"ORIGINAL" if pre else None):
+                return _r(True, input={"document": "group_by keys A, B, A (not contiguous)", "target_exists_before": pre},
+                          observed=f"raised={raised}, target now {now!r}", expected="an exception; target " + ("unchanged" if pre else "absent"))
+    finally:
+        shutil.rmtree(tmp, ignore_errors=True)
+    return _r(False)
